@@ -10,8 +10,8 @@ import json, os, re, shutil, subprocess, sys, time
 ID = sys.argv[1]
 checks = sys.argv[2:] or [ID]
 tier = os.environ.get('SEED_TIER', 'quick')
-src = '/tmp/seed-out/' + ID
-dst = '/verif/seeded/' + ID
+src = os.environ.get('SEED_SRC', '/tmp/seed-out') + '/' + ID
+dst = '/verif/seeded/' + ID + os.environ.get('SEED_SUFFIX', '')
 if not os.path.exists(os.path.join(src, 'patch.diff')):
     src = dst
 env = dict(os.environ, GOFLAGS='-mod=mod', GOPROXY='off', GOSUMDB='off', GOTOOLCHAIN='local')
